@@ -16,6 +16,13 @@ FRAMES_PER_PACKET and PACKET_BACKLOG_SIZE are the regenerated `Gen.C16` constant
                                  cipher is a parameter of the model, so its datagrams come from the wire);
                                  the backlog is rebuilt from them by the model's own `Fifo.set`
       → `ok <keys csv>` | `raised`
+  ctxnew                         a new StreamContext (`Ctx.fresh`)            → `<ctx>`
+  ctxstream <sampleRate> <frameSize> <ssrc> <rnd> <now> <comp csv|-> <src hex|->
+                                 one stream_file on the remembered context: initialize (sample rate),
+                                 send_audio's reset(rnd, now), _stream_data; the context keeps what the loop left
+      → `<latency> ` ++ the answer of `stream`
+  ctxreset <rnd> <now>           `context.reset()` (teardown)                 → `<ctx>`
+      <ctx> = `<sampleRate> <rtpseq> <startTs> <headTs> <latency> <paddingSent>`
   fifo <limit> <ops csv>         ops `s<key>` (set, value = key as 2 bytes), `g<key>`, `c<key>`
       → per op `ok|raise`, `<hex>|raise`, `1|0`; then `|` and the keys
   reset
@@ -27,8 +34,12 @@ def digest (b : Bytes) : Nat := b.foldl (fun h x => (h * 257 + x.toNat + 1) % 42
 structure DState where
   sent : List Sent
   backlog : Fifo
+  ctx : Ctx
 
-def DState.init : DState := ⟨[], Fifo.empty Gen.C16.packetBacklogSize⟩
+def DState.init : DState := ⟨[], Fifo.empty Gen.C16.packetBacklogSize, Ctx.fresh⟩
+
+def showCtx (x : Ctx) : String :=
+  s!"{x.sampleRate} {x.rtpseq} {x.startTs} {x.headTs} {x.latency} {x.paddingSent}"
 
 def Status.toStr : Status → String
   | .finished => "finished"
@@ -87,7 +98,7 @@ def handle (s : DState) (ws : List String) : DState × String :=
                          startTs := start, ssrc := ssrc, wire := wireV1 }
         let r := packetize c Gen.C16.packetBacklogSize src s0 comp
         let st := r.final
-        ({ sent := r.sent, backlog := st.backlog },
+        ({ s with sent := r.sent, backlog := st.backlog },
          s!"{r.status.toStr} {st.rtpseq} {st.headTs} {st.paddingSent} " ++
          s!"{joinWith "," (st.backlog.keys.map toString)} {joinWith ";" (r.sent.map showSent)}")
     | _, _, _, _, _, _, _ => (s, "bad-op")
@@ -102,9 +113,30 @@ def handle (s : DState) (ws : List String) : DState × String :=
     match (if items == "-" then some [] else (items.splitOn ",").mapM parse) with
     | some es =>
       match backlogAfter Gen.C16.packetBacklogSize es with
-      | some bl => ({ sent := es, backlog := bl }, s!"ok {joinWith "," (bl.keys.map toString)}")
+      | some bl => ({ s with sent := es, backlog := bl }, s!"ok {joinWith "," (bl.keys.map toString)}")
       | none => (s, "raised")
     | none => (s, "bad-op")
+  | ["ctxnew"] => ({ s with ctx := Ctx.fresh }, showCtx Ctx.fresh)
+  | ["ctxreset", rnd, now] =>
+    match rnd.toNat?, now.toInt? with
+    | some rnd, some now =>
+      let x := s.ctx.reset rnd now
+      ({ s with ctx := x }, showCtx x)
+    | _, _ => (s, "bad-op")
+  | ["ctxstream", rate, fs, ssrc, rnd, now, comp, src] =>
+    match rate.toNat?, fs.toNat?, ssrc.toNat?, rnd.toNat?, now.toInt?, csvNats? comp, ofHex? src with
+    | some rate, some fs, some ssrc, some rnd, some now, some comp, some src =>
+      if fs = 0 ∨ rnd ≥ seqMod then (s, "bad-op")
+      else
+        let spec : StreamSpec := { sampleRate := rate, frameSize := fs, ssrc := ssrc, wire := wireV1, src := src,
+                                   comp := comp, rnd := rnd, now := now, rnd' := 0, now' := 0 }
+        let x1 := (s.ctx.withRate rate).reset rnd now
+        let r := streamOn Gen.C16.framesPerPacket Gen.C16.packetBacklogSize x1 spec
+        let st := r.final
+        ({ sent := r.sent, backlog := st.backlog, ctx := x1.after st },
+         s!"{x1.latency} {r.status.toStr} {st.rtpseq} {st.headTs} {st.paddingSent} " ++
+         s!"{joinWith "," (st.backlog.keys.map toString)} {joinWith ";" (r.sent.map showSent)}")
+    | _, _, _, _, _, _, _ => (s, "bad-op")
   | ["ctrl", d] =>
     match ofHex? d with
     | some d => (s, showCtrl (controlReceived s.backlog d))
